@@ -36,6 +36,13 @@ class S:
             out += "%s// c%d %s\n" % (ind, self.nc, self.pick(["", "note", "x -> y", "{ odd }", "\"q\""]))
         return out
 
+    def eol(self):
+        """a comment at the end of a line"""
+        if not self.comments or not self.chance(0.07):
+            return ""
+        self.nc += 1
+        return " // c%d %s" % (self.nc, self.pick(["", "eol", "x -> y"]))
+
     # ---------------- literals
     def int_lit(self):
         k = self.r.randint(0, 9)
@@ -211,7 +218,7 @@ class S:
                 rhs = self.expr(d - 1, ind + "    ") if self.chance(0.7) else self.block(d - 1, ind + "  ")
                 if self.chance(0.1):
                     rhs = self.pick(["fail @\"no\"", "todo @\"later\""])
-                s += "%s  %s -> %s\n" % (ind, pats, rhs)
+                s += "%s  %s -> %s%s\n" % (ind, pats, rhs, self.eol() if "\n" not in rhs else "")
             return s + ind + "}"
         if k == 21:
             return "%s { %s }" % (self.pick(["and", "or"]), ", ".join(e() for _ in range(self.r.randint(2, 3))))
@@ -267,7 +274,7 @@ class S:
         out = ""
         for _ in range(self.r.randint(0, 3)):
             out += self.comment(ind)
-            out += ind + self.stmt(d, ind) + "\n"
+            out += ind + self.stmt(d, ind) + self.eol() + "\n"
             if self.chance(0.15):
                 out += "\n"
         out += self.comment(ind)
@@ -275,7 +282,7 @@ class S:
         if bare and self.chance(0.06):
             last = self.pick(["fail", "todo", "fail @\"boom\"", "todo @\"wip\"", "fail " + self.name()])             # bare: only where nothing follows that it could swallow
             return out + ind + last + "\n"
-        out += ind + last + "\n"
+        out += ind + last + self.eol() + "\n"
         out += self.comment(ind)
         return out
 
@@ -322,7 +329,7 @@ class S:
             if self.chance(0.4):
                 for _ in range(self.r.randint(1, 3)):
                     s += self.comment("  ") + self.doc("  ")
-                    s += "  %s: %s,\n" % (self.name(), self.ty())
+                    s += "  %s: %s,%s\n" % (self.name(), self.ty(), self.eol())
             else:
                 for i in range(self.r.randint(1, 3)):
                     s += self.comment("  ") + self.doc("  ")
